@@ -129,6 +129,13 @@ static void check_welch_random(int nfft, int wl, int ov, int wk, bool cplx, bool
         mxref = std::max(mxref, v);
     }
     ld sum = 0;
+    //known pinned-tree behaviour for complex input: spectrum in FFT bin order under a centred axis. It is told apart from
+    //any other disagreement: hypothesis H2 = "value i is the estimate of bin i".
+    bool h2 = cplx;
+    bool known_reported = false;
+    for (int i = 0; cplx && h2 && i < want; ++i) {
+        h2 = fabsl(ld(res.pxx[i]) - wr.pxx[i]) <= 1e-10L * mxref;
+    }
     for (int i = 0; i < want; ++i) {
         const double v = res.pxx[i];
         if (!(v >= 0) || !std::isfinite(v)) {
@@ -144,12 +151,22 @@ static void check_welch_random(int nfft, int wl, int ov, int wk, bool cplx, bool
             want_v *= 2;   //one-sided folding
         }
         const ld e = fabsl(ld(v) - want_v);
-        vh::obs_max("welch_err_over_max", double(e / mxref));
+        if (known_reported) {
+            continue;   //keep summing for the conservation check
+        }
         if (!(e <= 1e-10L * mxref)) {
-            vh::violation(vh::fmt("C13/welch/value/%s/%s", ck, power ? "power" : "psd"),
-                          cfg + vh::fmt(": value listed at f=%.6f (index %d) is %.17g, reference Welch estimate at that frequency %.17Lg (max %.3Le)", res.f[i], i, v, want_v, mxref));
+            if (h2) {
+                vh::violation("C13/welch/complex/spectrum_in_fft_order_but_axis_centred",
+                              cfg + vh::fmt(": value listed at f=%.6f (index %d) is %.17g but the estimate at that frequency is %.17Lg; the returned values equal the estimates in FFT bin order", res.f[i], i, v, want_v));
+                known_reported = true;
+                continue;
+            } else {
+                vh::violation(vh::fmt("C13/welch/value/%s/%s", ck, power ? "power" : "psd"),
+                              cfg + vh::fmt(": value listed at f=%.6f (index %d) is %.17g, reference Welch estimate at that frequency %.17Lg (max %.3Le)", res.f[i], i, v, want_v, mxref));
+            }
             return;
         }
+        vh::obs_max("welch_err_over_max", double(e / mxref));
     }
     //conservation (density scaling), independent of the reference spectrum
     if (!power) {
@@ -295,7 +312,11 @@ static void check_tone(int nfft, int wl, int wk, bool cplx, vh::Rng& r, int sub)
             }
         }
         vh::obs_add(cplx ? "label_checks_complex" : "label_checks_real");
-        if (im != nearest) {
+        //known pinned-tree behaviour (complex): the maximum sits at the index of the FFT-order bin nearest the tone
+        const int fftbin = int(((lround(f0 * nfft) % nfft) + nfft) % nfft);
+        if (im != nearest && cplx && im == fftbin) {
+            vh::violation("C13/welch/complex/spectrum_in_fft_order_but_axis_centred", cfg + vh::fmt(": maximum is listed at f=%.6f (index %d = FFT bin of the tone) but the entry nearest the tone is f=%.6f (index %d)", res.f[im], im, res.f[nearest], nearest));
+        } else if (im != nearest) {
             vh::violation(vh::fmt("C13/welch/label/%s", ck), cfg + vh::fmt(": maximum is listed at f=%.6f (index %d) but the entry nearest the tone is f=%.6f (index %d)", res.f[im], im, res.f[nearest], nearest));
         }
     }
